@@ -248,6 +248,8 @@ def run(chk, facts, tier):
         "its own effect; (ERRORED) definitely_errored = false buckets filtered by ErrorState::Error; (REAUTH) reauthorize feeds all six buckets back "
         "(true/false with the constant expressions, residuals as is) and evaluates them against the concretised request with the mapping installed; "
         "(RESIDUAL) every residual-building exit of the evaluator rebuilds the same node kind from the same children in order. "
+        "(PROJECTABLE) is_projectable quantifies over every sub-expression and accepts only node kinds whose evaluator arm has no error source of its own "
+        "(derived from the arm's MIR region), so attributes discarded by projecting a residual record cannot hide an error. "
         "Does not decide equivalence of residuals under substitution.")
     chk.assumptions = ["MIR at mir-opt-level=0 reflects source control flow", "std collections behave as documented"]
     decision(chk, facts)
@@ -255,3 +257,5 @@ def run(chk, facts, tier):
     errored(chk, facts)
     reauthorize(chk, facts)
     residual_hom.check(chk, facts, "C13.RESIDUAL")
+    from rules import c13_projectable
+    c13_projectable.check(chk, facts)
